@@ -55,12 +55,14 @@ def gen_scenario(rng, profile="mixed"):
                 sg = rng.choice(sigs)
                 if r < 0.5:
                     lines.append("t%d %s %d %d" % (tid, rng.choice(["reg", "reg", "regu"]), sg, tag)); mine.append(tag); tag += 1
-                elif r < 0.8 and (known or mine):
+                elif r < 0.78 and (known or mine):
                     lines.append("t%d unreg @%d" % (tid, rng.choice(known + mine)))
-                elif r < (0.95 if profile == "mutators" else 0.88):
+                elif r < (0.9 if profile == "mutators" else 0.86):
                     lines.append("t%d unregsig %d" % (tid, sg))
-                elif r < 0.94:
-                    lines.append("t%d %s %d %d" % (tid, rng.choice(["reg", "regu"]), rng.choice([9, 19, 100, 0, -1, 65]), tag)); tag += 1
+                elif r < 0.96:
+                    # numbers the OS refuses a handler for (incl. SIGKILL / SIGSTOP through the unchecked entry:
+                    # the query succeeds, the installation fails) and numbers it does not know at all
+                    lines.append("t%d %s %d %d" % (tid, rng.choice(["reg", "regu", "regu"]), rng.choice([9, 19, 9, 19, 100, 0, -1, 65]), tag)); tag += 1
                 else:
                     lines.append("t%d reg %d %d" % (tid, rng.choice([4, 8, 11]), tag)); tag += 1
             mutators.append(tid)
